@@ -240,7 +240,7 @@ def c_fasta_text(rng):
 
 
 def g_scores(rng, off, n, cpl):
-    lo, hi = 33 - off, 126 - off
+    lo, hi = max(33 - off, -128), min(126 - off, 127)     # printable, and representable in the int8 the reader returns
     qs = [rng.choice([lo, hi, rng.randint(lo, hi), rng.randint(lo, hi)]) for _ in range(n)]
     # force '@' and '+' at line starts inside the score block
     step = cpl if cpl else n
@@ -602,7 +602,7 @@ def c_seq_conv(rng):
     for i in range(rng.choice([1, 2, 3])):
         kind = rng.choice(["nuc", "amb", "prot"]) if fmt == "fasta" else rng.choice(["nuc", "amb"])
         s = g_seq(rng, {"nuc": NUC, "amb": AMB, "prot": PROT}[kind], nonempty=True)
-        ents.append([f"s{i} " + g_header(rng), kind, s])
+        ents.append([(f"s{i} " + g_header(rng)).strip(), kind, s])
     return {"kind": "seq_conv_rt", "spec": {"o": "seq_conv", "fmt": fmt, "entries": ents, "cpl": rng.choice([None, 1, 4, 80]), "off": rng.choice(["Sanger", "Solexa", "Illumina-1.3", "Illumina-1.5", "Illumina-1.8"]), "seed": rng.randint(0, 10**6)}}
 
 
@@ -904,6 +904,8 @@ def _o_fasta_text(spec):
     from biotite.file import InvalidFileError
     from biotite.sequence.io.fasta import FastaFile
     text = "\n".join(spec["lines"]) + "\n"
+    if any(l != l.lstrip() for l in spec["lines"]):
+        return []      # indented '>' / ';' lines: read() and read_iter() differ, outside the property (never written)
     try:
         a = list(FastaFile.read(io.StringIO(text)).items())
     except InvalidFileError:
